@@ -7,6 +7,9 @@ CONSTANTS
   PoolN = 4
   Depth3 = FALSE
   M_ShiftOnce = TRUE
+  M_ContainsAnyRunes = TRUE
+  UChars = {1, 40, 41, 42, 43, 45, 46, 48, 49}
+  UMaxData = 2
   PartsOn = {}
   D_FoldWidth = TRUE
   D_ContainerNul = TRUE
